@@ -586,12 +586,12 @@ func (c *Ctx) QaArgSatisfies(fnName string, sel Sel, idx int, desc string, pred 
 	}
 	for _, in := range ins {
 		ci, ok := in.(ssa.CallInstruction)
-		if !ok || idx >= len(ci.Common().Args) {
+		if !ok || idx >= len(BaselineArgs(ci.Common())) {
 			c.Undecided(rule, construct, "site is not a call with that many arguments")
 			return false
 		}
-		if !pred(qaStripConv(ci.Common().Args[idx])) {
-			c.Fail(rule, construct, InstrPos(in), fmt.Sprintf("argument `%s` is not %s", Term(ci.Common().Args[idx]), desc))
+		if !pred(qaStripConv(BaselineArgs(ci.Common())[idx])) {
+			c.Fail(rule, construct, InstrPos(in), fmt.Sprintf("argument `%s` is not %s", Term(BaselineArgs(ci.Common())[idx]), desc))
 			return false
 		}
 	}
@@ -703,7 +703,7 @@ func (c *Ctx) QaSameObjAfter(fnName string, stores Sel, callee Sel, idx int, unl
 		}
 		barriers := map[ssa.Instruction]bool{}
 		for _, t := range callee.F(c.P, fn) {
-			if ci, ok := t.(ssa.CallInstruction); ok && idx < len(ci.Common().Args) && ci.Common().Args[idx] == obj {
+			if ci, ok := t.(ssa.CallInstruction); ok && idx < len(BaselineArgs(ci.Common())) && BaselineArgs(ci.Common())[idx] == obj {
 				barriers[t] = true
 			}
 		}
@@ -748,11 +748,11 @@ func (c *Ctx) QaCallArgFieldIs(fnName string, sel Sel, idx int, field string, k 
 	}
 	for _, in := range ins {
 		ci, ok := in.(ssa.CallInstruction)
-		if !ok || idx >= len(ci.Common().Args) {
+		if !ok || idx >= len(BaselineArgs(ci.Common())) {
 			c.Undecided(rule, construct, "site is not a call with that many arguments")
 			return false
 		}
-		if !c.P.QaSameObjFieldIs(in, ci.Common().Args[idx], field, k) {
+		if !c.P.QaSameObjFieldIs(in, BaselineArgs(ci.Common())[idx], field, k) {
 			c.Fail(rule, construct, InstrPos(in), fmt.Sprintf("`%s` is not dominated by that test; facts here: {%s}", DescribeInstr(in), factStrings(FactsAtInstr(in))))
 			return false
 		}
@@ -826,11 +826,11 @@ func (c *Ctx) QaClampedOrExempt(fnName string, sel Sel, idx int, clampDesc strin
 	n := 0
 	for _, in := range ins {
 		ci, ok := in.(ssa.CallInstruction)
-		if !ok || idx >= len(ci.Common().Args) {
+		if !ok || idx >= len(BaselineArgs(ci.Common())) {
 			c.Undecided(rule, construct, "site is not a call with that many arguments")
 			return false
 		}
-		for _, lf := range QaPhiLeaves(qaStripConv(ci.Common().Args[idx])) {
+		for _, lf := range QaPhiLeaves(qaStripConv(BaselineArgs(ci.Common())[idx])) {
 			n++
 			if DependsOn(lf.V, clamp) {
 				continue
